@@ -135,7 +135,7 @@ theorem queries_keep_headers (q : Query) (s : ElfStream) :
 theorem reachable_twin (sp : Spec) (dev : Device) (s : ElfStream) (d : Device)
     (h : openStream sp dev = (.ok s, d)) (qs : List Query) (r₀ : CachingReader) (h₀ : RInv r₀ dev.content) :
     Twin (qs.foldl (fun s q => q.after s) s).reader r₀ dev.content :=
-  ⟨history_winv qs s _ (openStream_winv sp dev s d h), h₀⟩
+  Twin.mk' (history_winv qs s _ (openStream_winv sp dev s d h)) h₀
 
 /-- **Any later `Ok` answer is the fault-free answer** — one theorem per query; `s.twin r₀` is the
     same parser state on the fault-free reader `r₀`. -/
@@ -197,6 +197,15 @@ theorem symbol_version_table_fault_free (s : ElfStream) (r₀ : CachingReader) (
     (h : s.symbolVersionTable = (.ok v, s')) :
     ∃ s₀', (s.twin r₀).symbolVersionTable = (.ok v, s₀') ∧ Twin s'.reader s₀'.reader c :=
   symver_twin s r₀ c ht v s' h
+
+/-- **`open_stream` fabricates nothing either**: if it succeeds under ANY schedule, the fault-free
+    open of the same contents succeeds with the same file header, section headers and program
+    headers (and the two parser states are twins). -/
+theorem open_fault_free (sp : Spec) (devf dev : Device) (hl : Legal dev.sched) (hc : devf.content = dev.content)
+    (s : ElfStream) (d : Device) (h : openStream sp devf = (.ok s, d)) :
+    ∃ s₀ d₀, openStream sp dev = (.ok s₀, d₀) ∧ s₀.ehdr = s.ehdr ∧ s₀.shdrs = s.shdrs ∧
+      s₀.phdrs = s.phdrs ∧ Twin s.reader s₀.reader dev.content :=
+  open_twin sp devf dev hl (by rw [hc]; exact PrefixOf.refl _) s d h
 
 /-- the two primitives, for completeness -/
 theorem read_bytes_fault_free (r r₀ : CachingReader) (c : Array UInt8) (ht : Twin r r₀ c) (s e : Nat) (hse : s ≤ e)
